@@ -675,8 +675,12 @@ fn cmd_seq(a: &Args) -> i32 {
 }
 
 /// Pointer-kind law grid (C15).
-fn cmd_kinds(_a: &Args) -> i32 {
-    sched::set_mode(Mode::Off);
+fn cmd_kinds(a: &Args) -> i32 {
+    // step points counted (budget per container round trip), no perturbation
+    sched::set_mode(Mode::Free);
+    sched::set_free_intensity(0);
+    sched::BUDGET_PROP.store(13, std::sync::atomic::Ordering::Relaxed);
+    runner::start_watchdog(a.u64("stall_s", 20));
     let (cells, checks) = wl_kinds::run_grid();
     runner::with(|r| {
         r.execs = cells;
